@@ -606,7 +606,8 @@ def main(tier):
         if g.get("nest"):
             run.count("nest-kind:%s%s" % (g["kind"], "-bare" if g["bare"] else ""))
             for sp in specs_of(g["chain"]):
-                run.count("nest-shape:atoms=%d,depth=%d" % (NS.n_atoms(sp[1]), NS.n_depth(sp[1])))
+                na = NS.n_atoms(sp[1])
+                run.count("nest-shape:atoms=%s,depth=%s" % (na if na < 4 else "4-6" if na < 7 else "7+", min(NS.n_depth(sp[1]), 4)))
             if c == "CRASH" and mm == "CRASH" and g["bare"] and len([l for l in g["chain"] if l]) > 1:
                 run.known_finding("C09-bare-size-child-assert", g["defs"])
         if mm != c:
@@ -676,6 +677,8 @@ def main(tier):
     for v in run.violations:
         if v.pop("_pending", False):
             v["no_failing_input_found"] = not any(nm in " ".join(v.get("asn1", [])) for nm in oracle_bad)
+    # only the first 20 violations are written out: those for which a failing input was found first
+    run.violations.sort(key=lambda v: bool(v.get("no_failing_input_found")))
     tb = ["Coq 8.16.1 kernel + vm_compute (refuted witnesses only)",
           "axioms under Print Assumptions: " + (", ".join(sorted(axioms)) or "none (Closed under the global context)"),
           "extraction: ExtrOcamlBasic only; OCaml 4.13.1; ocaml/drv_c09.ml (tree parser, range printer)",
